@@ -50,6 +50,9 @@ def run(ctx: Ctx) -> Result:
     class IfaceY(Protocol):
         def bar(self): ...
     ifaces = {'iX': IfaceX, 'iY': IfaceY}
+    class OnlyFoo:
+        def foo(self): return 1
+    xobjs = {'k1': OnlyFoo(), 'k2': OnlyFoo(), 'none': object()}
     snap = dict(plugins=copy.copy(F._plugins), contracts=dict(F._contracts), ifaces=dict(F._contract_interfaces), aliases=dict(F.opcode_aliases))
     def restore():
         F._plugins.clear(); F._plugins.update({k: list(v) for k, v in snap['plugins'].items()})
@@ -80,7 +83,7 @@ def run(ctx: Ctx) -> Result:
         """runs the history on the implementation, checking the set specification after every step; returns False on the first problem"""
         shared_ts = {'timestamp': 1700000000, 'sigfield1': b'abc'}; shared_plain = {'sigfield1': b'abc', 'note': 'n'}
         restore()
-        spec_pl = {s: [] for s in scopes}; spec_ct = {}; spec_if = set(snap['ifaces']); spec_al = {}
+        spec_pl = {s: [] for s in scopes}; spec_ct = {}; spec_if = set(snap['ifaces']); spec_al = {}; spec_x = [None]
         for idx, h in enumerate(hist):
             op = h[0]
             try:
@@ -96,6 +99,16 @@ def run(ctx: Ctx) -> Result:
                     cid, c = contracts[h[1]]; F.add_contract(cid, c); spec_ct[cid] = h[1]
                 elif op == 'remove_contract':
                     cid, c = contracts[h[1]]; F.remove_contract(cid); spec_ct.pop(cid, None)
+                elif op == 'add_contract_x':
+                    # an object that fulfils only the custom interface iX (or nothing at all): accepted exactly while a matching
+                    # interface is active - whether or not the id is already registered
+                    want_ok = h[1] != 'none' and 'IfaceX' in spec_if
+                    try: F.add_contract(b'X', xobjs[h[1]]); ok = True
+                    except BaseException: ok = False
+                    if ok != want_ok: viol(hist, idx, f'add_contract(X, {h[1]}) accepted={want_ok} (interfaces active: {sorted(spec_if)})', f'accepted={ok}'); return False
+                    if ok: spec_x[0] = h[1]
+                elif op == 'remove_contract_x':
+                    F.remove_contract(b'X'); spec_x[0] = None
                 elif op == 'add_iface':
                     F.add_contract_interface(ifaces[h[1]]); spec_if.add(ifaces[h[1]].__name__)
                 elif op == 'remove_iface':
@@ -158,6 +171,17 @@ def run(ctx: Ctx) -> Result:
                     del log[:]
                     if not (got == want or (want == 'ERR' and got.startswith('ERR'))):
                         viol(hist, idx, f'compile_script({src!r}) with contract A ' + ('active' if b'A' in spec_ct else 'not active') + f' = {want}', got); return False
+                elif op == 'compile_alias':
+                    # an alias is usable in every position while it is active - also right after a one-symbol explicit push
+                    opc_ = {k: v for k, v in G.names().items()}
+                    for al_ in ('ZZ1', 'ZZ2'):
+                        for src, enc in ((f'OP_PUSH1 x01 {al_}', b'\x03\x01\x01'), (f'true {al_.lower()}', b'\x01'), (f'OP_PUSH2 x0102 {al_}', b'\x04\x00\x02\x01\x02'), (f'push d1 {al_}', b'\x02\x01')):
+                            got = fresh_compile(src)
+                            if al_ in spec_al:
+                                want = (enc + bytes([opc_[spec_al[al_][3:]]])).hex()
+                                if got != want: viol(hist, idx, f'compile_script({src!r}) with alias {al_} -> {spec_al[al_]} active = {want}', got); return False
+                            elif not got.startswith('ERR'):
+                                viol(hist, idx, f'compile_script({src!r}) is rejected while {al_} is not an alias', got); return False
                 elif op == 'assemble':
                     try: got = P.assemble(P.get_symbols(h[1])).hex()
                     except BaseException as e: got = 'ERR:' + type(e).__name__
@@ -173,6 +197,8 @@ def run(ctx: Ctx) -> Result:
                 if names != spec_pl[s]: viol(hist, idx, f'plugins[{s}] = {spec_pl[s]}', names); return False
             ct = {k: next(n for n, (cid, c) in contracts.items() if c is v) for k, v in F._contracts.items() if k in (b'A', b'B')}
             if ct != spec_ct: viol(hist, idx, f'contracts = {spec_ct}', ct); return False
+            gotx = next((n for n, o_ in xobjs.items() if F._contracts.get(b'X') is o_), None)
+            if gotx != spec_x[0]: viol(hist, idx, f'contract X = {spec_x[0]}', gotx); return False
             if set(F._contract_interfaces) != spec_if: viol(hist, idx, f'interfaces = {sorted(spec_if)}', sorted(F._contract_interfaces)); return False
             al = {k: v for k, v in F.opcode_aliases.items() if k not in snap['aliases']}
             if al != spec_al: viol(hist, idx, f'aliases added = {spec_al}', al); return False
@@ -216,7 +242,8 @@ def run(ctx: Ctx) -> Result:
         small = {
             'contracts': [('add_contract', 'cA'), ('add_contract', 'cB'), ('remove_contract', 'cA'), ('remove_contract', 'cB'), ('run',)],
             'interfaces': [('add_iface', 'iX'), ('add_iface', 'iY'), ('remove_iface', 'iX'), ('remove_iface', 'iY')],
-            'aliases': [('add_alias', 'zz1', 'OP_TRUE'), ('add_alias', 'zz2', 'op_false'), ('add_alias', 'ZZ1', 'OP_DUP'), ('add_alias', 'true', 'OP_TRUE')],
+            'iface_gate': [('add_iface', 'iX'), ('remove_iface', 'iX'), ('add_contract_x', 'k1'), ('add_contract_x', 'k2'), ('add_contract_x', 'none'), ('remove_contract_x',)],
+            'aliases': [('add_alias', 'zz1', 'OP_TRUE'), ('add_alias', 'zz2', 'op_false'), ('add_alias', 'ZZ1', 'OP_DUP'), ('add_alias', 'true', 'OP_TRUE'), ('compile_alias',)],
             'compile': [('compile', s) for s in compile_probes[:3]] + [('assemble', compile_probes[0]), ('assemble', compile_probes[1])],
             'compile_rt': [('add_contract', 'cA'), ('remove_contract', 'cA'), ('compile_rt',), ('compile', compile_probes[2])],
         }
@@ -228,12 +255,12 @@ def run(ctx: Ctx) -> Result:
                 if not apply(hist) and len(res.violations) >= 3: stop = True; break
             if stop or ctx.expired(): break
         for name, letters in small.items():
-            for ln in range(1, ctx.n(5, 6) + 1):
+            for ln in range(1, (ctx.n(4, 5) if name == 'iface_gate' else ctx.n(5, 6)) + 1):
                 for hist in itertools.product(letters, repeat=ln):
                     if ln >= 5 and rng.random() > .3: continue
                     res.note_case((name,) + hist)
                     if not apply(hist) and len(res.violations) >= 6: break
-        all_letters = pl_letters + [('compile_rt',)] + [l for v in small.values() for l in v] + [('compile', s) for s in compile_probes] + [('assemble', s) for s in compile_probes]
+        all_letters = pl_letters + [('compile_rt',), ('compile_alias',)] + [l for v in small.values() for l in v] + [('compile', s) for s in compile_probes] + [('assemble', s) for s in compile_probes]
         for _ in range(ctx.n(1500, 30000)):
             hist = tuple(rng.choice(all_letters) for _ in range(rng.randrange(6, 41)))
             res.note_case(hist)
